@@ -61,6 +61,15 @@ func (s *state) sync(addrs stringset.Set) {
 			delete(s.trend, addr)
 		}
 	}
+
+	// Forget departed entries entirely (including unhealthy ones), so that an
+	// entry which later rejoins is initialized as healthy again.
+	for addr := range s.all {
+		if !addrs.Has(addr) {
+			s.all.Remove(addr)
+			delete(s.trend, addr)
+		}
+	}
 }
 
 // failed marks addr as failed.
